@@ -410,3 +410,12 @@ Fixpoint elabs (wc : wcfg) (w : world) (us : list uev) : list ev :=
 
 Definition w0 (wc : wcfg) (m : list (N * N)) (L : nat) : world :=
   mkW (st0 m) (V.C14.Model.empty_table L) V.C17.Ingress.kstate0.
+
+(* the ids the user starts; a refresh future that is taken starts an operation (with an id from the shared
+   counter) only when the key is still provided: `started_by` of the elaborated event decides *)
+Definition ustarted_by (u : uev) : option N :=
+  match u with
+  | UCmd q _ _ | UPutToPeers q _ _ _ _ _ _ _ | UFire q _ _ _ => Some q
+  | UEv e => started_by e
+  | _ => None
+  end.
